@@ -51,7 +51,8 @@ def _likelihood_result_names(f):
 
 
 def run_lockstep(ctx, rid, qualname, group, levels, max_loop=None, floor_paths=1):
-    f = ctx.program.func(qualname)
+    from .lockstep import bulk_deletion_view
+    f = bulk_deletion_view(ctx.program.func(qualname))
     res_names = _likelihood_result_names(f)
     if res_names and 'blobs' in group.optional:
         # the presence of the optional member may be tested on the local that holds the
@@ -86,7 +87,8 @@ def rule_L1_sampler(ctx, which, rid='L1'):
         sites = 0
         for q in sorted(allowed0 - {'Sampler.add_bound', 'Sampler.__init__',
                                     'Sampler.add_samples'}):
-            fq = ctx.program.func(q)
+            from .lockstep import bulk_deletion_view
+            fq = bulk_deletion_view(ctx.program.func(q))
             trq = SamplerTracker(fq, G_SHELL.members)
             if any(e.op in STRUCTURAL and e.level == 'list' and e.member in G_SHELL.members
                    for es in trq.all_events().values() for e in es):
@@ -386,6 +388,14 @@ def rule_L5(ctx, rid='L5'):
                 ctx.ob(rid, 'Sampler.posterior:repeat-axis(%s)' % e.member, ok, f.where(e.ast),
                        'rows are repeated along axis 0' if ok else
                        'np.repeat without axis=0 flattens / repeats along the wrong axis')
+            if e.op == 'SELECT' and e.extra.get('take'):
+                one_d = e.member == by_src['log_l'][0]
+                ok = e.extra.get('axis') == '0' or (one_d and e.extra.get('axis') is None)
+                ctx.ob(rid, 'Sampler.posterior:take-axis(%s)' % e.member, ok, f.where(e.ast),
+                       'rows are taken along axis 0' if ok else
+                       'np.take without axis=0 indexes the flattened array: for a '
+                       'two-dimensional %s the rows returned are not the selected rows'
+                       % e.member)
     # the weights are rebuilt with the resampled length
     rep_keys = {e.sel for es in tr.all_events().values() for e in es if e.op == 'REPEAT'}
     ok = False
